@@ -633,7 +633,7 @@ def lin_flatten(body):
     return blocks
 
 
-LIN_FILES = ["lang/Linearity.tla", "lang/MC_Linearity.cfg", "lang/MC_Linearity_dev.cfg"]
+LIN_FILES = ["lang/Linearity.tla", "lang/MC_Linearity.cfg", "lang/MC_Linearity_dev.cfg", "lang/MC_Linearity_acc.cfg", "lang/MC_Linearity_rej.cfg"]
 LIN_ACCEPT_DEVS = ("DevLoopOnce", "DevForceAssignInvalid", "DevReturnAfterJump")
 _BAD_RE = re.compile(r'<<"BAD", (\d+), \{(.*)\}>>')
 
@@ -772,15 +772,22 @@ def check_C03(ctx):
     known = {}
     if disagree:
         dprogs = [pr for pr, _, _ in disagree]
-        vbad, _ = _lin_oracle(ctx, dprogs, "dev", ctx.cores, cfg="MC_Linearity_dev.cfg")
+        # accept-side disagreements get the accept-side variants, reject-side ones DevJumpNoExit (each with the exact variant again)
+        vbad = {}
+        for side, cfg in ((False, "MC_Linearity_acc.cfg"), (True, "MC_Linearity_rej.cfg")):
+            part = [pr for pr, rej, _ in disagree if rej == side]
+            if part:
+                vb1, _ = _lin_oracle(ctx, part, "dev-rej" if side else "dev-acc", ctx.cores, cfg=cfg)
+                for lab, ids in vb1.items():
+                    vbad.setdefault(lab, set()).update(ids)
         srcs = _lin_checker(ctx, binary, dprogs, "dev", src=True)
         vb = lambda label, pid: pid in vbad.get(label, set())
         for pr, _, _ in disagree:   # the exact variant is part of the second run: same verdict as in pass 1
             if vb("exact", pr["id"]) != (pr["id"] in exact_bad):
                 raise Infra("exact oracle not reproducible for program %d" % pr["id"])
         # sanity of the model: a variant that only removes paths cannot add a bad path
-        for pr, _, _ in disagree:
-            if vb("DevLoopOnce", pr["id"]) and not vb("exact", pr["id"]):
+        for pr, rej, _ in disagree:
+            if not rej and vb("DevLoopOnce", pr["id"]) and not vb("exact", pr["id"]):
                 raise Infra("model inconsistency: DevLoopOnce finds a bad path the exact oracle does not (program %d)" % pr["id"])
         subsets = []
         for n in (1, 2, 3):
